@@ -95,23 +95,30 @@ Definition held (T : tst) : list nat :=
   | PN8 _ x | PN9 _ x => x :: opt (cur T)
   | PY2 nf | PY3 nf | PY4 nf _ | PI1 nf => nf :: opt (cur T)
   | PL2 _ _ _ _ _ x => x :: opt (cur T)
+  | PW2 f | PP2 f => f :: opt (cur T)      (* popped from its wait queue by this waker *)
   | _ => opt (cur T)
   end.
 
 Definition places (s : st) : list nat := held (T0 s) ++ Fq s ++ Sq s.
 
-(* per fiber: at most one place; queued => READY; RUNNING/READY => has a place;
-   states are 0 (none) 1 RUNNING 2 READY 3 WAITING; ids in 1..N.
-   h = held fibers, F / S = the two deques *)
-Record fibp (N : nat) (fs : nat -> Z) (h F S : list nat) (f : nat) : Prop := {
+(* per fiber: at most one place; queued => READY, SAVING, or WAITING again after
+   a flip (then not in a wait queue); RUNNING / READY / SAVING / WAITING-but-not-
+   in-a-wait-queue => has a place; in a wait queue => WAITING and no place;
+   states are 0 (none) 1 RUNNING 2 READY 3 WAITING 5 SAVING; ids in 1..N.
+   h = held fibers, F / S = the two deques, w f = 1 iff inwq f *)
+Record fibp (N : nat) (fs : nat -> Z) (w : nat -> Z) (h F S : list nat) (f : nat) : Prop := {
   f_once : cnt h f + cnt F f + cnt S f <= 1;
-  f_queued : 1 <= cnt F f + cnt S f -> fs f = 2%Z;
-  f_placed : fs f = 1%Z \/ fs f = 2%Z -> 1 <= cnt h f + cnt F f + cnt S f;
-  f_state : (0 <= fs f <= 3)%Z;
+  f_queued : 1 <= cnt F f + cnt S f -> fs f = 2%Z \/ fs f = 5%Z \/ fs f = 3%Z;
+  f_placed : fs f = 1%Z \/ fs f = 2%Z \/ fs f = 5%Z \/ (fs f = 3%Z /\ w f = 0%Z) ->
+             1 <= cnt h f + cnt F f + cnt S f;
+  f_wq : w f = 1%Z -> fs f = 3%Z /\ cnt h f + cnt F f + cnt S f = 0;
+  f_wb : w f = 0%Z \/ w f = 1%Z;
+  f_state : (0 <= fs f <= 3 \/ fs f = 5)%Z;
   f_range : fs f <> 0%Z -> 1 <= f <= N
 }.
+Definition wqz (s : st) (f : nat) : Z := if inwq s f then 1%Z else 0%Z.
 Definition fib_ok (N : nat) (s : st) (f : nat) : Prop :=
-  fibp N (fstt s) (held (T0 s)) (Fq s) (Sq s) f.
+  fibp N (fstt s) (wqz s) (held (T0 s)) (Fq s) (Sq s) f.
 
 Definition run (s : st) (c : nat) : Prop := c = 0 \/ fstt s c = 1%Z.
 
@@ -122,16 +129,19 @@ Definition kok (s : st) (c : nat) (k : kont) : Prop :=
   | _ => False
   end.
 
+(* a fiber that next() has handed out: READY, or WAITING after a flip *)
+Definition hok (s : st) (nf : nat) : Prop := fstt s nf = 2%Z \/ fstt s nf = 3%Z.
+
 Definition lok (N : nat) (s : st) (T : tst) : Prop :=
   let c := cur T in
   match pc T with
   | PSpawnR f => run s c /\ 1 <= f <= N
   | PSpawnW f => run s c /\ 1 <= f <= N /\ fstt s f = 0%Z
   | PSched f k =>
-      fstt s f = 2%Z /\
       match k with
-      | KSpawn _ | KWake _ => run s c
-      | KRequeue nf => c = f /\ fstt s nf = 1%Z
+      | KSpawn _ => fstt s f = 2%Z /\ run s c
+      | KWake _ => (fstt s f = 2%Z \/ fstt s f = 5%Z) /\ run s c
+      | KRequeue nf => fstt s f = 2%Z /\ c = f /\ fstt s nf = 1%Z
       | _ => False
       end
   | PBlockW => c <> 0 /\ fstt s c = 1%Z
@@ -141,21 +151,24 @@ Definition lok (N : nat) (s : st) (T : tst) : Prop :=
   | PN3 k tmp => kok s c k /\ Fq s = [] /\ tmp = sfrom s 0
   | PN4 k tmp sv => kok s c k /\ Fq s = [] /\ tmp = sfrom s 0 /\ sv = 3 - sfrom s 0
   | PN5 k tmp => kok s c k /\ sto s 0 = sfrom s 0 /\ tmp = 3 - sfrom s 0
-  | PN8 k x => kok s c k /\ fstt s x = 2%Z
-  | PN9 _ _ => False
-  | PY2 nf => c <> 0 /\ (fstt s c = 1 \/ fstt s c = 3)%Z /\ fstt s nf = 2%Z
-  | PY3 nf => c <> 0 /\ fstt s c = 1%Z /\ fstt s nf = 2%Z
-  | PY4 nf ts => c <> 0 /\ fstt s nf = 2%Z /\
+  | PN8 k x => kok s c k /\ (fstt s x = 2 \/ fstt s x = 5 \/ fstt s x = 3)%Z
+  | PN9 k x => kok s c k /\ fstt s x = 5%Z
+  | PY2 nf => c <> 0 /\ (fstt s c = 1 \/ fstt s c = 3)%Z /\ hok s nf
+  | PY3 nf => c <> 0 /\ fstt s c = 1%Z /\ hok s nf
+  | PY4 nf ts => c <> 0 /\ hok s nf /\
                  ((ts = 0 /\ fstt s c = 3%Z) \/ (ts = c /\ fstt s c = 2%Z))
   | PL1 k => (k = KIdleLB /\ c = 0) \/ (k = KBalLB /\ run s c)
   | PL2 _ _ _ _ _ _ => False
-  | PI1 nf => c = 0 /\ fstt s nf = 2%Z
-  | PW1 f => run s c
-  | PW2 f => run s c /\ fstt s f = 3%Z
+  | PI1 nf => c = 0 /\ hok s nf
+  | PW1 f | PP1 f | PF1 f => run s c
+  | PW2 f | PP2 f => run s c /\ fstt s f = 3%Z
+  | PF2 f => run s c /\ fstt s f = 5%Z
   | Fin => run s c
   end.
 
-Definition prog_ok (N : nat) (p : list op) : Prop := forall f, In (OSpawn f) p -> 1 <= f <= N.
+(* the fiber ids spawned by the program are at most N (ids outside 1..NF are
+   refused by the model itself) *)
+Definition prog_ok (N : nat) (p : list op) : Prop := forall f, In (OSpawn f) p -> f <= N.
 
 Record Inv (N : nat) (s : st) : Prop := {
   i_n : nthr s = 1;
@@ -170,7 +183,7 @@ Record Inv (N : nat) (s : st) : Prop := {
 (* ------------------------------------------------------------------ *)
 (* the next call of the program                                        *)
 Definition startpc (p : pcT) : Prop :=
-  match p with Fin | PSpawnR _ | PYRead | PBlockW | PL1 _ | PW1 _ => True | _ => False end.
+  match p with Fin | PSpawnR _ | PYRead | PBlockW | PL1 _ | PW1 _ | PP1 _ | PF1 _ => True | _ => False end.
 
 Lemma start_spec N s t : forall p c k, prog_ok N p -> run s c ->
   let T' := snd (start t c p k) in
@@ -185,22 +198,24 @@ Proof.
     { intros e0. specialize (IH c (S k) Hr' Hr). destruct (start t c r (S k)) as [e T]. exact IH. }
     assert (Hpl : forall pc0, startpc pc0 -> held {| pc := pc0; cur := c; prog := r; opi := k |} = opt c).
     { intros pc0 H0. unfold held; cbn. destruct pc0; try reflexivity; destruct H0. }
+    assert (Hgo : forall pc0, startpc pc0 -> lok N s {| pc := pc0; cur := c; prog := r; opi := k |} ->
+               let T' := {| pc := pc0; cur := c; prog := r; opi := k |} in
+               cur T' = c /\ prog_ok N (prog T') /\ lok N s T' /\ held T' = opt c /\ startpc (pc T')).
+    { intros pc0 H0 H1. split; [reflexivity|]. split; [exact Hr'|]. split; [exact H1|]. split; [apply Hpl|]; exact H0. }
     destruct o; cbn [snd].
-    + split; [reflexivity|]. split; [exact Hr'|]. split; [|split; [apply Hpl|]; exact I].
-      unfold lok; cbn. split; auto. apply Hp; left; reflexivity.
-    + destruct (Nat.eqb_spec c 0) as [E|E]; [apply Hrec|].
-      split; [reflexivity|]. split; [exact Hr'|]. split; [|split; [apply Hpl|]; exact I].
+    + (* spawn *) unfold bad_id. destruct (Nat.eqb_spec f 0) as [E|E]; [apply Hrec|].
+      destruct (Nat.ltb NF f); [apply Hrec|]. cbn [orb snd]. apply Hgo; [exact I|].
+      unfold lok; cbn. split; auto. split; [lia|]. apply Hp; left; reflexivity.
+    + destruct (Nat.eqb_spec c 0) as [E|E]; [apply Hrec|]. apply Hgo; [exact I|].
       unfold lok; cbn. split; auto. destruct Hr; [contradiction|auto].
-    + destruct (Nat.eqb_spec c 0) as [E|E]; [apply Hrec|].
-      split; [reflexivity|]. split; [exact Hr'|]. split; [|split; [apply Hpl|]; exact I].
+    + destruct (Nat.eqb_spec c 0) as [E|E]; [apply Hrec|]. apply Hgo; [exact I|].
       unfold lok; cbn. split; auto. destruct Hr; [contradiction|auto].
-    + destruct (Nat.eqb_spec c 0) as [E|E]; [|apply Hrec].
-      split; [reflexivity|]. split; [exact Hr'|]. split; [|split; [apply Hpl|]; exact I].
+    + destruct (Nat.eqb_spec c 0) as [E|E]; [|apply Hrec]. apply Hgo; [exact I|].
       unfold lok; cbn. auto.
-    + split; [reflexivity|]. split; [exact Hr'|]. split; [|split; [apply Hpl|]; exact I].
-      unfold lok; cbn. auto.
-    + split; [reflexivity|]. split; [exact Hr'|]. split; [|split; [apply Hpl|]; exact I].
-      unfold lok; cbn. auto.
+    + destruct (bad_id f); [apply Hrec|]. apply Hgo; [exact I|]. unfold lok; cbn. auto.
+    + apply Hgo; [exact I|]. unfold lok; cbn. auto.
+    + destruct (bad_id f); [apply Hrec|]. apply Hgo; [exact I|]. unfold lok; cbn. auto.
+    + destruct (bad_id f); [apply Hrec|]. apply Hgo; [exact I|]. unfold lok; cbn. auto.
 Qed.
 
 Lemma finish_spec N s t T c v : prog_ok N (prog T) -> run s c ->
@@ -223,7 +238,7 @@ Proof. destruct c; cbn [opt cnt Nat.eqb]; auto; try lia. Qed.
 Lemma inv_mk N s T' :
   nthr s = 1 -> to_store s = true -> (sfrom s 0 = 1 \/ sfrom s 0 = 2) ->
   ((forall k tmp, pc T' <> PN5 k tmp) -> sto s 0 = 3 - sfrom s 0) ->
-  (forall f, fibp N (fstt s) (held T') (Fq s) (Sq s) f) ->
+  (forall f, fibp N (fstt s) (wqz s) (held T') (Fq s) (Sq s) f) ->
   prog_ok N (prog T') -> lok N s T' -> Inv N (set_thr s 0 T').
 Proof.
   intros. constructor; unfold fib_ok, T0, Fq, Sq in *; cbn [nthr to_store sfrom sto fstt dq thr set_thr];
@@ -233,7 +248,7 @@ Qed.
 Lemma inv_finish N s T c v :
   nthr s = 1 -> to_store s = true -> (sfrom s 0 = 1 \/ sfrom s 0 = 2) ->
   sto s 0 = 3 - sfrom s 0 ->
-  (forall f, fibp N (fstt s) (opt c) (Fq s) (Sq s) f) ->
+  (forall f, fibp N (fstt s) (wqz s) (opt c) (Fq s) (Sq s) f) ->
   prog_ok N (prog T) -> run s c -> Inv N (set_thr s 0 (snd (finish 0 T c v))).
 Proof.
   intros Hn Hts Hf Hto Hfib Hp Hr.
@@ -244,12 +259,6 @@ Qed.
 Lemma fst_let_finish {A} (X : list Z * tst) (g : tst -> A) (h : list Z -> list Z) :
   fst (let '(e1, T') := X in (g T', h e1)) = g (snd X).
 Proof. destruct X; reflexivity. Qed.
-
-Ltac zeq :=
-  repeat match goal with
-  | H : context [Z.eqb ?a ?b] |- _ => destruct (Z.eqb_spec a b)
-  | |- context [Z.eqb ?a ?b] => destruct (Z.eqb_spec a b)
-  end.
 
 Ltac neq :=
   repeat match goal with
@@ -263,8 +272,9 @@ Ltac neq :=
    (and at the named fibers posed before) *)
 Ltac fibs Hfib g :=
   let H := fresh "Hg" in pose proof (Hfib g) as H; destruct H;
-  unfold run, kok in *;
-  constructor; cbn [cnt] in *; rewrite ?cnt_opt in *; unfold upd in *; neq; try lia.
+  unfold run, kok, hok in *;
+  constructor; unfold wqz in *; cbn [cnt inwq set_wq set_fs set_thr set_dq set_from set_to] in *;
+  rewrite ?cnt_opt in *; unfold upd in *; neq; cbv iota in *; try lia.
 
 Lemma Fq_push s l : sfrom s 0 = 1 \/ sfrom s 0 = 2 ->
   Fq (set_dq s (3 - sfrom s 0) l) = Fq s /\ Sq (set_dq s (3 - sfrom s 0) l) = l.
@@ -281,12 +291,22 @@ Proof. unfold Fq, Sq; cbn [dq sfrom set_from]. rewrite upd_same. intros [E|E]; r
 Ltac mk := apply inv_mk; [assumption|assumption|assumption| | | |].
 Ltac mkfin := rewrite fst_let_finish; apply inv_finish; [assumption|assumption|assumption| | | |].
 Ltac hsimp :=
-  unfold held; cbn [pc with_pc cur prog fstt set_fs set_to set_from set_dq];
+  unfold held; cbn [pc with_pc cur prog fstt set_fs set_to set_from set_dq set_wq];
   repeat match goal with
   | |- context [Fq (set_fs ?s ?f ?v)] => change (Fq (set_fs s f v)) with (Fq s)
   | |- context [Sq (set_fs ?s ?f ?v)] => change (Sq (set_fs s f v)) with (Sq s)
+  | |- context [Fq (set_wq ?s ?f ?v)] => change (Fq (set_wq s f v)) with (Fq s)
+  | |- context [Sq (set_wq ?s ?f ?v)] => change (Sq (set_wq s f v)) with (Sq s)
   | |- context [Fq (set_to ?s ?f ?v)] => change (Fq (set_to s f v)) with (Fq s)
   | |- context [Sq (set_to ?s ?f ?v)] => change (Sq (set_to s f v)) with (Sq s)
+  end.
+Ltac same Hto' Hprog Hfib :=
+  cbn [fst]; mk; try (intros _; exact Hto'); try exact Hprog; try (intros g; hsimp; exact (Hfib g)).
+Ltac dfin :=
+  match goal with |- context [finish ?a ?b ?c ?d] =>
+    let EX := fresh "EX" in
+    destruct (finish a b c d) as [?e1 ?T1] eqn:EX; cbn [fst];
+    match goal with |- Inv _ (set_thr _ _ ?T1) => replace T1 with (snd (finish a b c d)) by (rewrite EX; reflexivity) end
   end.
 
 Theorem step_inv N s : Inv N s -> Inv N (fst (step s 0)).
@@ -300,44 +320,40 @@ Proof.
   - (* PSpawnR *)
     destruct Hloc as [Hr Hf].
     destruct (Z.eqb_spec (fstt s f) 0) as [E|E].
-    + cbn [fst]. mk.
-      * intros _. exact Hto'.
-      * hsimp. exact Hfib.
-      * exact Hprog.
-      * unfold lok; cbn. auto.
+    + same Hto' Hprog Hfib. unfold lok; cbn. auto.
     + mkfin; auto.
   - (* PSpawnW *)
     destruct Hloc as (Hr & Hf & Hz). cbn [fst].
     mk.
     + intros _. exact Hto'.
-    + intros g. hsimp. pose proof (Hfib f) as []. fibs Hfib g.
+    + intros g. hsimp. pose proof (Hfib f) as []. pose proof (Hfib g) as []. unfold run, kok, hok in *. constructor. all: unfold wqz in *. all: cbn [cnt inwq set_wq set_fs set_thr set_dq set_from set_to] in *. all: rewrite ?cnt_opt in *. all: unfold upd in *. all: neq. idtac "neq done". all: cbv iota in *. idtac "iota done". all: try lia. Show. all: fail.
     + exact Hprog.
     + unfold lok, run in *; cbn. rewrite upd_same. split; auto.
       destruct Hr as [Hr|Hr]; auto. right. rewrite upd_other; auto. congruence.
   - (* PSched *)
-    destruct Hloc as [Hf2 Hk]. rewrite Hts, Hto'.
+    rewrite Hts, Hto'.
     destruct (Fq_push s (f :: dq s (3 - sfrom s 0)) Hfrom) as [EF ES].
     destruct k; try contradiction.
     + (* KSpawn *)
-      mkfin.
+      destruct Hloc as [Hf2 Hk]. mkfin.
       * exact Hto'.
       * intros g. rewrite EF, ES. change (dq s (3 - sfrom s 0)) with (Sq s).
-        cbn [fstt set_dq]. pose proof (Hfib f) as []. fibs Hfib g.
+        pose proof (Hfib f) as []. fibs Hfib g.
       * exact Hprog.
       * exact Hk.
     + (* KRequeue *)
-      destruct Hk as [Hc Hnf].
+      destruct Hloc as (Hf2 & Hc & Hnf).
       mkfin.
       * exact Hto'.
       * intros g. rewrite EF, ES. change (dq s (3 - sfrom s 0)) with (Sq s).
-        cbn [fstt set_dq]. rewrite Hc in *. pose proof (Hfib f) as []. pose proof (Hfib nf) as []. fibs Hfib g.
+        rewrite Hc in *. pose proof (Hfib f) as []. pose proof (Hfib nf) as []. fibs Hfib g.
       * exact Hprog.
       * right. exact Hnf.
     + (* KWake *)
-      mkfin.
+      destruct Hloc as [Hf2 Hk]. mkfin.
       * exact Hto'.
       * intros g. rewrite EF, ES. change (dq s (3 - sfrom s 0)) with (Sq s).
-        cbn [fstt set_dq]. pose proof (Hfib f) as []. fibs Hfib g.
+        pose proof (Hfib f) as []. fibs Hfib g.
       * exact Hprog.
       * exact Hk.
   - (* PBlockW *)
@@ -347,22 +363,16 @@ Proof.
     + exact Hprog.
     + unfold lok; cbn. rewrite upd_same. auto.
   - (* PYRead *)
-    destruct Hloc as [Hc H1]. cbn [fst]. mk.
-    + intros _. exact Hto'.
-    + intros g. hsimp. exact (Hfib g).
-    + exact Hprog.
-    + unfold lok, kok; cbn. auto.
+    destruct Hloc as [Hc H1]. same Hto' Hprog Hfib.
+    unfold lok, kok; cbn. auto.
   - (* PN1 *)
-    destruct (dq s (sfrom s 0)) eqn:EF; cbn [fst]; mk; try (intros _; exact Hto'); try exact Hprog;
-      try (intros g; hsimp; exact (Hfib g)).
+    destruct (dq s (sfrom s 0)) eqn:EF; same Hto' Hprog Hfib.
     + unfold lok; cbn. split; auto.
     + unfold lok; cbn. auto.
   - (* PN2 *)
-    cbn [fst]; mk; try (intros _; exact Hto'); try exact Hprog; try (intros g; hsimp; exact (Hfib g)).
-    unfold lok; cbn. tauto.
+    same Hto' Hprog Hfib. unfold lok; cbn. tauto.
   - (* PN3 *)
-    cbn [fst]; mk; try (intros _; exact Hto'); try exact Hprog; try (intros g; hsimp; exact (Hfib g)).
-    unfold lok; cbn. tauto.
+    same Hto' Hprog Hfib. unfold lok; cbn. tauto.
   - (* PN4 *)
     destruct Hloc as (Hk & HF & Htmp & Hsv). subst sv tmp. cbn [fst].
     destruct (Fq_swap s Hfrom) as [EF ES].
@@ -381,52 +391,52 @@ Proof.
     destruct (dq s (sfrom s 0)) eqn:EF.
     + unfold next_ret. destruct k; try contradiction.
       * destruct Hloc as (Hc & Hst & H13).
-        match goal with |- context [finish ?a ?b ?c ?d] => destruct (finish a b c d) as [e1 T1] eqn:EX end.
-        cbn [fst]. replace T1 with (snd (finish 0 T (if Z.eqb st 3 then 0 else cur T) (Zn (if Z.eqb st 3 then 0 else cur T))))
-          by (rewrite EX; reflexivity).
-        apply inv_finish; auto.
-        -- intros g. destruct (Z.eqb_spec st 3); [|exact (Hfib g)].
-           pose proof (Hfib (cur T)) as []. fibs Hfib g.
-        -- destruct (Z.eqb_spec st 3); [left; reflexivity|right; lia].
-      * match goal with |- context [finish ?a ?b ?c ?d] => destruct (finish a b c d) as [e1 T1] eqn:EX end.
-        cbn [fst]. replace T1 with (snd (finish 0 T (cur T) (Zn (cur T)))) by (rewrite EX; reflexivity).
-        apply inv_finish; auto. left. exact Hloc.
-    + cbn [fst]; mk; try (intros _; exact Hto'); try exact Hprog; try (intros g; hsimp; exact (Hfib g)).
-      unfold lok; cbn. exact Hloc.
+        destruct (Z.eqb_spec st 3) as [E3|E3]; dfin; apply inv_finish; auto.
+        -- intros g. hsimp. pose proof (Hfib (cur T)) as []. fibs Hfib g.
+        -- left; reflexivity.
+        -- right; lia.
+      * dfin. apply inv_finish; auto. left. exact Hloc.
+    + same Hto' Hprog Hfib. unfold lok; cbn. exact Hloc.
   - (* PN7 *)
     destruct (dq s (sfrom s 0)) as [|x rest] eqn:EF.
-    + cbn [fst]; mk; try (intros _; exact Hto'); try exact Hprog; try (intros g; hsimp; exact (Hfib g)).
-      unfold lok; cbn. exact Hloc.
+    + same Hto' Hprog Hfib. unfold lok; cbn. exact Hloc.
     + cbn [fst]. destruct (Fq_pop s rest Hfrom) as [E1 E2]. unfold Fq in Hfib at 1. rewrite EF in Hfib.
       mk.
       * intros _. exact Hto'.
       * intros g. rewrite E1, E2. hsimp. fibs Hfib g.
       * exact Hprog.
-      * unfold lok; cbn. split; auto. pose proof (Hfib x) as [_ Hq _ _ _]. apply Hq. cbn. rewrite Nat.eqb_refl. lia.
+      * unfold lok; cbn. split; auto. pose proof (Hfib x) as [_ Hq _ _ _ _ _]. apply Hq. cbn. rewrite Nat.eqb_refl. lia.
   - (* PN8 *)
-    destruct Hloc as [Hk Hx]. rewrite Hx. cbn [Z.eqb].
-    pose proof (Hfib x) as [_ _ _ _ Hrx]. destruct x as [|x']; [lia|].
-    unfold next_ret. destruct k; try contradiction; cbn [fst].
-    + mk; try (intros _; exact Hto'); try exact Hprog.
-      * intros g. hsimp. exact (Hfib g).
-      * unfold lok, kok in *; cbn. intuition.
-    + mk; try (intros _; exact Hto'); try exact Hprog.
-      * intros g. hsimp. exact (Hfib g).
-      * unfold lok, kok in *; cbn. intuition.
-  - (* PN9 *) contradiction.
+    destruct Hloc as [Hk Hx].
+    destruct (Z.eqb_spec (fstt s x) 5) as [E5|E5].
+    + same Hto' Hprog Hfib. unfold lok; cbn. auto.
+    + pose proof (Hfib x) as [_ _ _ _ _ _ Hrx]. destruct x as [|x']; [lia|].
+      unfold next_ret. destruct k; try contradiction; same Hto' Hprog Hfib;
+        unfold lok, kok, hok in *; cbn; intuition lia.
+  - (* PN9 *)
+    destruct Hloc as [Hk Hx]. cbn [fst]. rewrite Hto'.
+    destruct (Fq_push s (x :: dq s (3 - sfrom s 0)) Hfrom) as [EF ES].
+    mk.
+    + intros _. exact Hto'.
+    + intros g. rewrite EF, ES. change (dq s (3 - sfrom s 0)) with (Sq s). hsimp.
+      pose proof (Hfib x) as []. fibs Hfib g.
+    + exact Hprog.
+    + unfold lok; cbn. exact Hk.
   - (* PY2 *)
     destruct Hloc as (Hc & H13 & Hnf).
-    destruct (Z.eqb_spec (fstt s (cur T)) 1); cbn [fst]; mk; try (intros _; exact Hto'); try exact Hprog;
-      try (intros g; hsimp; exact (Hfib g)).
+    destruct (Z.eqb_spec (fstt s (cur T)) 1); same Hto' Hprog Hfib.
     + unfold lok; cbn. auto.
     + unfold lok; cbn. split; auto. split; auto. left. split; auto. lia.
   - (* PY3 *)
     destruct Hloc as (Hc & H1 & Hnf). cbn [fst]. mk; try (intros _; exact Hto'); try exact Hprog.
     + intros g. hsimp. pose proof (Hfib (cur T)) as []. pose proof (Hfib nf) as []. fibs Hfib g.
-    + unfold lok; cbn. rewrite upd_same. split; auto. split; [|right; auto].
+    + unfold lok, hok in *; cbn. rewrite upd_same. split; auto. split; [|right; auto].
       unfold upd. destruct (Nat.eqb nf (cur T)); auto.
   - (* PY4 *)
     destruct Hloc as (Hc & Hnf & Hts0).
+    assert (Hne : cur T <> nf).
+    { intros E. pose proof (Hfib nf) as [H1 _ _ _ _ _ _]. cbn [cnt] in H1.
+      rewrite cnt_opt, <- E, !Nat.eqb_refl in H1. destruct (Nat.eqb_spec (cur T) 0); lia. }
     destruct ts as [|ts'].
     + destruct Hts0 as [[_ H3]|[Habs _]]; [|congruence].
       mkfin.
@@ -437,37 +447,56 @@ Proof.
     + destruct Hts0 as [[Habs _]|[Hts1 H2]]; [discriminate|].
       cbn [fst]. mk; try (intros _; exact Hto'); try exact Hprog.
       * intros g. hsimp. pose proof (Hfib (cur T)) as []. pose proof (Hfib nf) as []. fibs Hfib g.
-      * assert (Hne : cur T <> nf).
-        { intros E. pose proof (Hfib nf) as [H1 _ _ _ _]. cbn [cnt] in H1.
-          rewrite cnt_opt, <- E, !Nat.eqb_refl in H1. destruct (Nat.eqb_spec (cur T) 0); lia. }
-        unfold lok; cbn. rewrite upd_same, Hts1. rewrite upd_other by auto. auto.
+      * unfold lok; cbn. rewrite upd_same, Hts1. rewrite upd_other by auto. auto.
   - (* PL1 *)
     unfold lb_continue. rewrite Hn. rewrite lb_scan_1thread.
     match goal with |- context [lb_ret ?s1 _ _ _] => set (s1' := s1) end.
     destruct Hloc as [[-> Hc]|[-> Hr]]; unfold lb_ret.
     + cbn [fst]. apply inv_mk; auto;
         try (intros g; hsimp; rewrite Hc; exact (Hfib g)); try (unfold lok; cbn; exact Hc).
-    + match goal with |- context [finish ?a ?b ?c ?d] => destruct (finish a b c d) as [e1 T1] eqn:EX end.
-      cbn [fst]. replace T1 with (snd (finish 0 T (cur T) 0%Z)) by (rewrite EX; reflexivity).
-      apply inv_finish; auto.
+    + dfin. apply inv_finish; auto.
   - (* PL2 *) contradiction.
   - (* PI1 *)
-    destruct Hloc as [Hc Hnf]. 
-    match goal with |- context [finish ?a ?b ?c ?d] => destruct (finish a b c d) as [e1 T1] eqn:EX end.
-    cbn [fst]. replace T1 with (snd (finish 0 T nf (Zn nf))) by (rewrite EX; reflexivity).
+    destruct Hloc as [Hc Hnf]. dfin.
     apply inv_finish; auto.
     + intros g. hsimp. rewrite Hc in *. pose proof (Hfib nf) as []. fibs Hfib g.
     + right. cbn. apply upd_same.
   - (* PW1 *)
-    destruct (Z.eqb_spec (fstt s f) 3).
-    + cbn [fst]; mk; try (intros _; exact Hto'); try exact Hprog; try (intros g; hsimp; exact (Hfib g)).
-      unfold lok; cbn. auto.
-    + mkfin; auto.
+    destruct (Z.eqb_spec (fstt s f) 3) as [E3|E3]; destruct (inwq s f) eqn:Ew; cbn [andb];
+      try (mkfin; auto; fail).
+    assert (Hw : wqz s f = 1%Z) by (unfold wqz; rewrite Ew; reflexivity).
+    cbn [fst]. mk.
+    + intros _. exact Hto'.
+    + intros g. hsimp. pose proof (Hfib f) as []. pose proof (Hfib (cur T)) as []. fibs Hfib g.
+    + exact Hprog.
+    + unfold lok; cbn. auto.
   - (* PW2 *)
     destruct Hloc as [Hr H3]. cbn [fst]. mk; try (intros _; exact Hto'); try exact Hprog.
     + intros g. hsimp. pose proof (Hfib f) as []. pose proof (Hfib (cur T)) as []. fibs Hfib g.
     + unfold lok, run in *; cbn. rewrite upd_same. split; auto.
       destruct Hr as [Hr|Hr]; auto. right. rewrite upd_other; auto. congruence.
+  - (* PP1 *)
+    destruct (Z.eqb_spec (fstt s f) 3) as [E3|E3]; destruct (inwq s f) eqn:Ew; cbn [andb];
+      try (mkfin; auto; fail).
+    assert (Hw : wqz s f = 1%Z) by (unfold wqz; rewrite Ew; reflexivity).
+    cbn [fst]. mk.
+    + intros _. exact Hto'.
+    + intros g. hsimp. pose proof (Hfib f) as []. pose proof (Hfib (cur T)) as []. fibs Hfib g.
+    + exact Hprog.
+    + unfold lok; cbn. auto.
+  - (* PP2 *)
+    destruct Hloc as [Hr H3]. cbn [fst]. mk; try (intros _; exact Hto'); try exact Hprog.
+    + intros g. hsimp. pose proof (Hfib f) as []. pose proof (Hfib (cur T)) as []. fibs Hfib g.
+    + unfold lok, run in *; cbn. rewrite upd_same. split; auto.
+      destruct Hr as [Hr|Hr]; auto. right. rewrite upd_other; auto. congruence.
+  - (* PF1 *)
+    destruct (Z.eqb_spec (fstt s f) 5) as [E5|E5].
+    + same Hto' Hprog Hfib. unfold lok; cbn. auto.
+    + mkfin; auto.
+  - (* PF2 *)
+    destruct Hloc as [Hr H5]. dfin. apply inv_finish; auto.
+    + intros g. hsimp. pose proof (Hfib f) as []. pose proof (Hfib (cur T)) as []. fibs Hfib g.
+    + unfold run in *. destruct Hr as [Hr|Hr]; auto. right. cbn. rewrite upd_other; auto. congruence.
   - (* Fin *)
     exact I0.
 Qed.
